@@ -372,7 +372,7 @@ def per_attempt_cursor_reset(ctx):
                    'no cursor variable and no seek/truncating open in the attempt: retried data is appended after the partial data')
 
 
-@rule('C02.e', ['C02'], floor=2)
+@rule('C02.e', ['C02', 'C09'], floor=2)
 def empty_object_still_written(ctx):
     """DownloadChunkIterator returns the (possibly empty) first chunk, so an empty object
     still produces one write (and therefore the destination file)."""
